@@ -196,6 +196,8 @@ pub struct Sys {
     pub ids_preset: bool,
     /// the Context was dropped in the middle of a write: the packet can never be completed
     pub torn_write: bool,
+    /// (value flavour) the broker has sent a PUBLISH that establishes topic alias 2 on this connection
+    pub alias_established: std::cell::Cell<bool>,
 }
 
 impl Sys {
@@ -220,6 +222,7 @@ impl Sys {
             sweep: false,
             ids_preset: false,
             torn_write: false,
+            alias_established: std::cell::Cell::new(false),
         }
     }
 
@@ -372,6 +375,7 @@ impl Sys {
     }
 
     pub fn connect_with(&mut self, spec: ConnectSpec, connack: SPacket) {
+        self.alias_established.set(false);
         self.events.push(format!("Connect; {}", connack.brief()));
         self.classes.push("Connect".into());
         self.m.connect(spec.clone());
@@ -852,6 +856,16 @@ impl Sys {
         self.sync();
     }
 
+    /// topic aliases only as far as the client allowed them in its CONNECT (Topic Alias Maximum), and
+    /// an alias-only PUBLISH (empty topic) only after a PUBLISH that established the alias
+    fn enrich_in(&self, p: SPacket) -> SPacket {
+        let tam = self.m.connect_spec.as_ref().and_then(|c| c.topic_alias_maximum).unwrap_or(0);
+        let established = self.alias_established.get();
+        let (p, est) = enrich_in(p, tam, established);
+        self.alias_established.set(est);
+        p
+    }
+
     fn enrich(&self, ev: Ev) -> Ev {
         let n = self.m.ops.len();
         match ev {
@@ -859,10 +873,10 @@ impl Sys {
             Ev::StartHeld(s) => Ev::StartHeld(enrich_op(s, n)),
             Ev::StartW(s) => Ev::StartW(enrich_op(s, n)),
             Ev::StartWC(s) => Ev::StartWC(enrich_op(s, n)),
-            Ev::Deliver(p) => Ev::Deliver(enrich_in(p)),
-            Ev::DeliverBatch(v) => Ev::DeliverBatch(v.into_iter().map(enrich_in).collect()),
-            Ev::DeliverBytewise(p) => Ev::DeliverBytewise(enrich_in(p)),
-            Ev::DeliverSplit(p, c) => Ev::DeliverSplit(enrich_in(p), c),
+            Ev::Deliver(p) => Ev::Deliver(self.enrich_in(p)),
+            Ev::DeliverBatch(v) => Ev::DeliverBatch(v.into_iter().map(|p| self.enrich_in(p)).collect()),
+            Ev::DeliverBytewise(p) => Ev::DeliverBytewise(self.enrich_in(p)),
+            Ev::DeliverSplit(p, c) => Ev::DeliverSplit(self.enrich_in(p), c),
             other => other,
         }
     }
@@ -1072,13 +1086,18 @@ pub fn enrich_op(spec: OpSpec, n: usize) -> OpSpec {
             OpSpec::Publish(p)
         }
         OpSpec::Subscribe(mut s) => {
-            if n % 2 == 0 {
+            if n % 3 != 2 {
+                // every option at its non-default value (one filter: the whole call asks for Retain
+                // Handling 2 / No Local / Retain As Published; two filters: a mix)
                 if let Some(f) = s.filters.first_mut() {
                     f.qos = Some(2);
                     f.no_local = Some(true);
                     f.retain_as_published = Some(true);
                     f.retain_handling = Some(2);
                 }
+                s.user_props = vec![("u".into(), "v".into())];
+            }
+            if n % 3 == 1 {
                 s.filters.push(FilterSpec {
                     filter: "second/+/#".into(),
                     qos: Some(1),
@@ -1086,7 +1105,6 @@ pub fn enrich_op(spec: OpSpec, n: usize) -> OpSpec {
                     retain_as_published: None,
                     retain_handling: Some(1),
                 });
-                s.user_props = vec![("u".into(), "v".into())];
             }
             OpSpec::Subscribe(s)
         }
@@ -1102,12 +1120,14 @@ pub fn enrich_op(spec: OpSpec, n: usize) -> OpSpec {
 }
 
 /// an inbound PUBLISH is decorated by a function of its own payload, so that a re-delivery of the
-/// same message looks the same
-pub fn enrich_in(p: SPacket) -> SPacket {
+/// same message looks the same; `tam` = the Topic Alias Maximum the client announced, `established` =
+/// alias 2 has been introduced on this connection; returns the packet and the new `established`
+pub fn enrich_in(p: SPacket, tam: u16, established: bool) -> (SPacket, bool) {
     match p {
         SPacket::Publish { dup, qos, retain, topic, pid, mut props, mut payload } => {
             let n = payload.iter().map(|b| *b as usize).sum::<usize>() % 4;
             let (mut retain, mut topic) = (retain, topic);
+            let mut est = established;
             match n {
                 0 => retain = true,
                 1 => {
@@ -1120,16 +1140,25 @@ pub fn enrich_in(p: SPacket) -> SPacket {
                     props.push(Prop::str(P_RESPONSE_TOPIC, "r"));
                     props.push(Prop::user("k", "2"));
                     props.push(Prop::bin(P_CORRELATION_DATA, &[0, 1, 2]));
-                    props.push(Prop::u16(P_TOPIC_ALIAS, 65535));
+                    if tam >= 2 {
+                        props.push(Prop::u16(P_TOPIC_ALIAS, 2));
+                        est = true;
+                    }
                 }
                 2 => {
                     topic = format!("{}/\u{e9}{}", topic, "x".repeat(200));
                     retain = true;
                 }
-                _ => {}
+                _ => {
+                    if tam >= 2 && established {
+                        // the alias alone: a zero-length Topic Name is legal here
+                        topic = String::new();
+                        props.push(Prop::u16(P_TOPIC_ALIAS, 2));
+                    }
+                }
             }
-            SPacket::Publish { dup, qos, retain, topic, pid, props, payload }
+            (SPacket::Publish { dup, qos, retain, topic, pid, props, payload }, est)
         }
-        other => other,
+        other => (other, established),
     }
 }
